@@ -6,6 +6,8 @@ open TinyVerif TinyVerif.Start TinyVerif.Env
 /-- driver state: the environment block the `var` / `varu` lines refer to -/
 structure St where
   env : List Bytes := []
+  /-- the image the `it` lines refer to: memory after `resolve`, the pointers it returned, string fuel -/
+  img : Option (Mem × Env × Nat) := none
 
 def arrMem (base : Nat) (a : Array Nat) : Mem :=
   fun x => if x < base then none else a[x - base]?
@@ -47,6 +49,50 @@ def observe (m : Mem) (sp dynv fuel : Nat) : String :=
   | .fault => "fault"
   | .panic => "panic"
   | .fuel => "fuel"
+
+/-- the start-up state the last `stack` / `build` line produced (none when `resolve` did not succeed) -/
+def imageOf (m : Mem) (sp dynv fuel : Nat) : Option (Mem × Env × Nat) :=
+  match resolve m sp dynv fuel with
+  | .ok (e, _, m') => some (m', e, fuel)
+  | _ => none
+
+/-- `n`, `N:<k>`, `s:<k>`, `t:<k>` (k > 0), `l`, `h`, `c`, `L`, `f`; every count a `usize` -/
+def parseOp (t : String) : Option ItOp :=
+  match t.splitOn ":" with
+  | ["n"] => some .next
+  | ["l"] => some .len
+  | ["h"] => some .sizeHint
+  | ["c"] => some .count
+  | ["L"] => some .last
+  | ["f"] => some .fold
+  | ["N", k] => k.toNat?.bind fun k => if k < W64 then some (.nth k) else none
+  | ["s", k] => k.toNat?.bind fun k => if k < W64 then some (.skip k) else none
+  | ["t", k] => k.toNat?.bind fun k => if 0 < k ∧ k < W64 then some (.stepBy k) else none
+  | _ => none
+
+/-- `count` / `last` / `fold` take the iterator by value: nothing may follow them -/
+def parseOps : List String → Option (List ItOp)
+  | [] => some []
+  | t :: rest => do
+    let op ← parseOp t
+    if (op = .count ∨ op = .last ∨ op = .fold) ∧ !rest.isEmpty then none
+    let r ← parseOps rest
+    pure (op :: r)
+
+def opTag : ItOp → String
+  | .next => "n" | .nth _ => "N" | .skip _ => "s" | .stepBy _ => "t" | .len => "l" | .sizeHint => "h"
+  | .count => "c" | .last => "L" | .fold => "f"
+
+def showOut {α : Type} (f : α → String) : ItOut α → String
+  | .item none => "None"
+  | .item (some a) => "S:" ++ f a
+  | .items l => "[" ++ ",".intercalate (l.map f) ++ "]"
+  | .num n => toString n
+  | .hint lo hi => s!"{lo}," ++ (match hi with | none => "none" | some h => toString h)
+
+def showOuts {α : Type} (f : α → String) : List ItOp → List (ItOut α) → List String
+  | op :: ops, o :: outs => (opTag op ++ "=" ++ showOut f o) :: showOuts f ops outs
+  | _, _ => []
 
 def unhexAll : List String → Option (List Bytes)
   | [] => some []
@@ -111,7 +157,7 @@ def step (s : St) (line : String) : St × String :=
     match sp.toNat?, Drv.unhex h with
     | some sp, some img =>
       let a := img.toArray
-      (s, observe (arrMem sp a) sp 0 (a.size + 1))
+      ({ s with img := imageOf (arrMem sp a) sp 0 (a.size + 1) }, observe (arrMem sp a) sp 0 (a.size + 1))
     | _, _ => (s, "bad-op")
   | "build" :: sp :: rest =>
     -- the spec-side image: `build <sp> a <hex>* e <hex>* x (<k> <v>)*`
@@ -122,8 +168,20 @@ def step (s : St) (line : String) : St × String :=
       match unhexAll as, unhexAll es, parseAux xs with
       | some argv, some env, some aux =>
         let a := (buildStack sp argv env aux).toArray
-        (s, observe (arrMem sp a) sp 0 (a.size + 1))
+        ({ s with img := imageOf (arrMem sp a) sp 0 (a.size + 1) }, observe (arrMem sp a) sp 0 (a.size + 1))
       | _, _, _ => (s, "bad-op")
+    | _, _ => (s, "bad-op")
+  | "it" :: kind :: toks =>
+    -- a script of calls on ONE fresh `args_os()` / `args()` iterator over the last `stack` / `build` image
+    match s.img, parseOps toks with
+    | some (m, e, fuel), some ops =>
+      if ops.isEmpty then (s, "bad-op") else
+      let k := e.argc + 2
+      if kind = "os" then
+        (s, showR (fun outs => " ".intercalate ("it" :: showOuts Drv.hex ops outs)) (runOps (ArgsOs.next m e fuel) k ops (argsOs e)))
+      else if kind = "args" then
+        (s, showR (fun outs => " ".intercalate ("it" :: showOuts showItem ops outs)) (runOps (Args.next m e fuel) k ops (argsOs e)))
+      else (s, "bad-op")
     | _, _ => (s, "bad-op")
   | "env" :: hs =>
     match unhexAll hs with
